@@ -75,7 +75,8 @@ Exercised ==
   {c \in {"create_ok", "multi_msg", "identical_in_tx", "identical_in_block", "identical_later",
           "invalid_rej", "poison_rej", "rest_nonempty", "after_rollback",
           "fid_multi_entry", "fid_four_entries", "fid_share_digest", "fid_identical_entries",
-          "fid_algo_only", "fid_empty_meta", "fid_long_meta", "fid_long_digest", "fid_reordered"} :
+          "fid_algo_only", "fid_empty_meta", "fid_long_meta", "fid_long_digest", "fid_reordered",
+          "fid_padded", "fid_mixed_case"} :
      CASE c = "create_ok" -> ev.ok
        [] c = "multi_msg" -> ev.ok /\ Len(ev.digests) > 1
        [] c = "identical_in_tx" -> ev.ok /\ SameIn(ev.digests)
@@ -94,7 +95,9 @@ Exercised ==
        [] c = "fid_empty_meta" -> ev.ok /\ "empty_meta" \in Range(ev.shape)
        [] c = "fid_long_meta" -> ev.ok /\ "long_meta" \in Range(ev.shape)
        [] c = "fid_long_digest" -> ev.ok /\ "long_digest" \in Range(ev.shape)
-       [] c = "fid_reordered" -> ev.ok /\ "reordered" \in Range(ev.shape)}
+       [] c = "fid_reordered" -> ev.ok /\ "reordered" \in Range(ev.shape)
+       [] c = "fid_padded" -> ev.ok /\ "padded" \in Range(ev.shape)
+       [] c = "fid_mixed_case" -> ev.ok /\ "mixed_case" \in Range(ev.shape)}
 Coverage == Exercised = {} \/ PrintT(<<"EXERCISED", Exercised>>)
 
 Report == (l = Len(Trace) + 1) => PrintT(<<"TRACE-END", Len(Trace), drift, driftAt>>)
